@@ -5,6 +5,8 @@ import CantoVerif.Driver.Epochs
 import CantoVerif.Driver.Params
 import CantoVerif.Driver.Ante
 import CantoVerif.Driver.Signers
+import CantoVerif.Driver.Genesis
+import CantoVerif.Driver.Replica
 /-! Line-protocol driver: `lake env lean --run Main.lean <suite> < trace` -/
 def main (args : List String) : IO UInt32 := do
   match args with
@@ -15,4 +17,6 @@ def main (args : List String) : IO UInt32 := do
   | ["params"] => CV.Drv.Params.main; return 0
   | ["ante"] => CV.Drv.Ante.main; return 0
   | ["signers"] => CV.Drv.Signers.main; return 0
+  | ["genesis"] => CV.Drv.Genesis.main; return 0
+  | ["replica"] => CV.Drv.Replica.main; return 0
   | _ => IO.eprintln "usage: Main <suite>"; return 2
